@@ -186,6 +186,20 @@ class Intern:
         return v
 
 
+SHORTCUTS = {"content.xml": "content", "meta.xml": "meta", "settings.xml": "settings", "styles.xml": "styles", "META-INF/manifest.xml": "manifest"}
+
+
+def spelled(name, spell):
+    """the spelling of a part name handed to the API: as is, with the leading "./" that hrefs carry, or the shortcut of a main part"""
+    if spell == "dotslash":
+        return "./" + name
+    if spell == "shortcut" and name in SHORTCUTS:
+        return SHORTCUTS[name]
+    if spell == "dotshortcut" and name in SHORTCUTS:
+        return "./" + SHORTCUTS[name]
+    return name
+
+
 def z(n):
     return "(%d)" % n if n < 0 else str(n)
 
@@ -462,6 +476,31 @@ class Driver:
             if self.twin is not None:
                 self.doc, self.twin = self.twin, self.doc
             return None
+        if k == "buildopen":
+            # a package assembled with zipfile from a template: extra members in special directories, listed in its manifest
+            dst = self.fresh(".odt")
+            base = fix_src(o["base"])
+            members = read_zip(base)
+            have = set(n for n, _, _ in members)
+            extra = [(n, expand(v)) for n, v in o["extra"] if n not in have]
+            out = []
+            for n, st, b in members:
+                if n == "META-INF/manifest.xml":
+                    root = etree.fromstring(b)
+                    for en, _ in extra:
+                        if not en.endswith("/"):
+                            e = etree.SubElement(root, MN + "file-entry"); e.set(MN + "full-path", en); e.set(MN + "media-type", "application/octet-stream")
+                    b = etree.tostring(root, xml_declaration=True, encoding="UTF-8")
+                out.append((n, st, b))
+            with zipfile.ZipFile(dst, "w", zipfile.ZIP_DEFLATED) as zf:
+                for n, st, b in out[:-1] if out[-1][0] == "META-INF/manifest.xml" else out:
+                    zf.writestr(n, b, zipfile.ZIP_STORED if st else zipfile.ZIP_DEFLATED)
+                for n, b in extra:
+                    zf.writestr(n, b)
+                if out[-1][0] == "META-INF/manifest.xml":
+                    zf.writestr(out[-1][0], out[-1][2])
+            o = dict(o, op="open", src=dst, buf=bool(o.get("buf"))); k = "open"
+            sid = self.fs.id_of(dst); ids.append(sid)
         if k == "copyopen":
             # open a private copy of a sample by path (so that the source can be removed / overwritten later)
             dst = self.fresh(os.path.splitext(o["src"])[1]); shutil.copy(o["src"], dst)
@@ -493,13 +532,13 @@ class Driver:
             elif k == "get":
                 n = o["name"]
                 opt_term = "OGetPart %s" % z(it.name(n))
-                r = limited(self.doc.get_part, n)
+                r = limited(self.doc.get_part, spelled(n, o.get("spell")))
                 if not is_xml_name(n):
                     out = "Got (%s)" % bytes_term(n, r, it) if r is not None else "Err"
             elif k == "touch":
                 n = o["name"]
                 opt_term = "OTouch %s" % z(it.name(n))
-                limited(lambda: self.doc.get_part(n).root)
+                limited(lambda: self.doc.get_part(spelled(n, o.get("spell"))).root)
             elif k == "edit":
                 n = o["name"]
                 edited = limited(self.do_edit, n, o["how"], o.get("arg"))
@@ -512,11 +551,11 @@ class Driver:
             elif k == "set":
                 n = o["name"]; data = self.make_data(n, o.get("variant", 0), o.get("data"))
                 opt_term = "OSetPart %s (%s)" % (z(it.name(n)), bytes_term(n, data, it))
-                limited(self.doc.set_part, n, data)
+                limited(self.doc.set_part, spelled(n, o.get("spell")), data)
             elif k == "del":
                 n = o["name"]
                 opt_term = "ODelPart %s" % z(it.name(n))
-                limited(self.doc.del_part, n)
+                limited(self.doc.del_part, spelled(n, o.get("spell")))
             elif k == "addfile":
                 content = o["content"]; ext = o.get("ext", ".png")
                 if o.get("filelike"):
@@ -730,12 +769,18 @@ def probe_fx():
     d.manifest.add_full_path("manifest.rdf")
     b = io.BytesIO(); d.save(b)
     f42 = "manifest.rdf" in zipfile.ZipFile(b).namelist()
-    return f35, f42
+    # F43: does a clone keep what a part class stores beside its tree (Meta: generator set by the user)?
+    d = Document("text")
+    d.meta.generator = "verif probe"
+    b = io.BytesIO(); d.clone.save(b)
+    f43 = b"verif probe" in zipfile.ZipFile(b).read("meta.xml")
+    return f35, f42, f43
 
 
 def fx_header():
-    f35, f42 = probe_fx()
-    return "Definition FX := mkFx true true true true true true true true %s %s.\n" % ("true" if f35 else "false", "true" if f42 else "false"), (f35, f42)
+    f35, f42, f43 = probe_fx()
+    tf = lambda v: "true" if v else "false"
+    return "Definition FX := mkFx true true true true true true true true %s %s %s.\n" % (tf(f35), tf(f42), tf(f43)), (f35, f42, f43)
 
 
 PKG_HEADER = """Require Import Package. From Coq Require Import List ZArith Bool Arith. Import ListNotations.
@@ -768,7 +813,10 @@ def expand(v):
             import random
             _, seed, n = v.split(":")
             return random.Random(int(seed)).randbytes(int(n))
-        return v.encode("latin-1")
+        try:
+            return v.encode("latin-1")
+        except UnicodeEncodeError:
+            return v.encode("utf8")
     return v
 
 
@@ -823,7 +871,10 @@ def resolve(drv, o, rng_seed):
             return []
         return [dict(op="set", name=rng.choice(xmls), variant=rng.randrange(4))]
     if k == "setnew":
-        return [dict(op="set", name=rng.choice(["extra/new file.bin", "Pictures/with space.png", "Thumbnails/thumbnail.png"]), variant=rng.randrange(4))]
+        return [dict(op="set", name=rng.choice(SPECIAL_NAMES), variant=rng.randrange(4))]
+    if k == "importnew":
+        n = rng.choice([x for x in SPECIAL_NAMES if not x.endswith("/")])
+        return [dict(op="import", name=n, data="special-" + n, mt=rng.choice(["application/octet-stream", "text/xml", "image/png"]))]
     if k == "get":
         return [dict(op="get", name=rng.choice(names))] if names else []
     if k == "touch":
@@ -912,6 +963,11 @@ def resolve(drv, o, rng_seed):
     raise ValueError(k)
 
 
+# names in every directory / spelling the code treats specially, and awkward ones
+SPECIAL_NAMES = ["extra/new file.bin", "Pictures/with space.png", "Thumbnails/thumbnail.png", "META-INF/documentsignatures.xml",
+                 "META-INF/manifest.xml.bak", "META-INF/sub/key.bin", "mimetype2", "mimetype.bak", "Thumbnails/other view.png",
+                 "Configurations2/menubar/menu é.xml", "a/b/c/d.e.f", "Pictures/中文.png", "content.xml.bak", "manifest.rdf.old",
+                 "Object 9/extra.bin", "EmptyDir/", "Configurations2/empty/"]
 OBJ_XML = {
     "content.xml": '<office:document-content xmlns:office="%s" office:version="1.2"><office:body><office:chart/></office:body></office:document-content>' % NS["office"],
     "styles.xml": '<office:document-styles xmlns:office="%s" office:version="1.2"><office:styles/></office:document-styles>' % NS["office"],
@@ -925,12 +981,28 @@ RAW_PARS = [
     '<text:p xmlns:text="%(t)s">note<text:note text:note-class="footnote"><text:note-citation>1</text:note-citation><text:note-body><text:p>body<text:s/>x</text:p></text:note-body></text:note>after</text:p>',
     '<text:p xmlns:text="%(t)s">l<text:a xmlns:xlink="http://www.w3.org/1999/xlink" xlink:href="http://x/">ink<text:s/></text:a><text:bookmark text:name="b"/>r</text:p>',
 ]
+# names in every directory / spelling the code treats specially, and awkward ones
+SPECIAL_NAMES = ["extra/new file.bin", "Pictures/with space.png", "Thumbnails/thumbnail.png", "META-INF/documentsignatures.xml",
+                 "META-INF/manifest.xml.bak", "META-INF/sub/key.bin", "mimetype2", "mimetype.bak", "Thumbnails/other view.png",
+                 "Configurations2/menubar/menu é.xml", "a/b/c/d.e.f", "Pictures/中文.png", "content.xml.bak", "manifest.rdf.old",
+                 "Object 9/extra.bin", "EmptyDir/", "Configurations2/empty/"]
 OBJ_XML = {
     "content.xml": '<office:document-content xmlns:office="%s" office:version="1.2"><office:body><office:chart/></office:body></office:document-content>' % NS["office"],
     "styles.xml": '<office:document-styles xmlns:office="%s" office:version="1.2"><office:styles/></office:document-styles>' % NS["office"],
     "meta.xml": '<office:document-meta xmlns:office="%s" office:version="1.2"><office:meta/></office:document-meta>' % NS["office"],
 }
 RAW_PARS = [p % dict(t=NS["text"]) for p in RAW_PARS]
+
+
+def with_spelling(c, rng):
+    """every op that takes a part name is driven with every accepted spelling of the name"""
+    if c.get("op") in ("get", "touch", "set", "del") and "spell" not in c and "name" in c:
+        r = rng.random()
+        if r < 0.25:
+            c["spell"] = "dotslash"
+        elif r < 0.5 and c["name"] in SHORTCUTS:
+            c["spell"] = rng.choice(["shortcut", "shortcut", "dotshortcut"])
+    return c
 
 
 def run_history(drv, hist, seed):
@@ -940,8 +1012,10 @@ def run_history(drv, hist, seed):
     last_returned = None
     pending = []
     for i, o in enumerate(hist):
+        import random as _random
+        srng = _random.Random((seed * 7 + i * 104729 + o.get("r", 0)) & 0x7FFFFFFF)
         for c in resolve(drv, o, (seed * 1000003 + i * 7919 + o.get("r", 0)) & 0x7FFFFFFF):
-            c = dict(c)
+            c = with_spelling(dict(c), srng) if "r" in o else dict(c)
             if c.get("use_returned") and last_returned:
                 c["arg"] = last_returned
             c_run = dict(c)
@@ -1126,7 +1200,7 @@ def run_check(prop, checker, layers, make_histories, key_of, tier, seed, replay,
         harness_failures=len(harness_failures), corpus_cases=len(corpus),
         fidelity_divergences=sum(1 for c in bad.values() if c == fidelity_code), fidelity_by_op=fid,
         violation_keys=sorted(seen_keys), exhaustive=False,
-        model_variant="FIXED" + ("" if fxv[0] else " without the repair of F35") + ("" if fxv[1] else " without the repair of F42"))
+        model_variant="FIXED" + "".join(" without the repair of %s" % n for n, v in zip(("F35", "F42", "F43"), fxv) if not v))
     if extra_cov.get("samples"):
         coverage["samples"] = coverage["samples"] + extra_cov.pop("samples")
     coverage.update(extra_cov)
